@@ -587,7 +587,15 @@ class TPAnalysis:
                 iters = sum(1 for i, c in loop_visits(E, conds) if c == 'm_pool' and i > wi) + sum(1 for e in E[wi:] if e.kind == 'foreach' and e.obj == 'm_pool')
                 if iters: self.any_pool_visit = True
                 joins = [e for e in E[wi:] if e.kind == 'call' and e.name == 'std::thread::join']
-                ok_c = len(joins) >= iters and (iters == 0 or bool(joins))
+                # `if (t->isJoinable()) t->join()`: an element that reports it is not joinable has no thread of execution left to wait for
+                notj = 0
+                for c_, val_, how_ in P.decisions:
+                    x = c_; want = False
+                    while x is not None and x.k in ('cast', 'paren') and x.n('sub') is not None: x = x.n('sub')
+                    if x is not None and x.k == 'unop' and x.op == '!': x = x.n('sub'); want = True
+                    while x is not None and x.k in ('cast', 'paren') and x.n('sub') is not None: x = x.n('sub')
+                    if how_ == 'fork' and x is not None and x.k == 'call' and (x.calleeq or '').split('::')[-1] in ('joinable', 'isJoinable') and val_ is want: notj += 1
+                ok_c = len(joins) + notj >= iters and (iters == 0 or bool(joins) or notj >= iters)
                 once('TP.6c', ok_c, f'stop() {row}: every worker in m_pool is joined after the flag is cleared ({iters} pool element(s) on this path)', joins[0].site if joins else site,
                      '' if ok_c else f'{iters} worker(s) in m_pool but {len(joins)} join(s) after the stop flag: stop() returns while workers still run tasks')
                 clr = [e for e in E[wi:] if e.kind == 'call' and e.obj == 'm_pool' and e.name.split('::')[-1] in ('clear', 'erase', 'pop_front', 'pop_back')]
